@@ -46,19 +46,8 @@ class FrameSetup(object):
         self.init_cells = init_cells      # {offset: (width, term)} overriding the symbolic entry record
         self.frame_size = PortModel.MTU if mtu_ok else ('sym', 'rxbuf.size', 1500, 9216)
 
-    # fields of the interface record whose C type is unique in the struct: found by type when renamed
-    UNIQUE_TYPES = {'next': r'struct lltd_iface_state \*', 'see_list': r'probe_t \*', 'see_list_count': r'uint32_t', 'mapper_known': r'uint8_t',
-                    'small_icon_size': r'size_t'}
-
     def soff(self, name):
-        f = self.srec.field(name)
-        if f is None and name in self.UNIQUE_TYPES:
-            c = [x for x in self.srec.fields if re.fullmatch(self.UNIQUE_TYPES[name], x[2].strip())]
-            if len(c) == 1:
-                f = c[0]
-        if f is None:
-            raise AnalysisBroken('field lltd_iface_state.%s vanished' % name)
-        return f[1]
+        return record_field(self.srec, name)[1]
 
     def build(self, st):
         fr = mk_obj(st, 'frame', self.frame_size, kind='input', default='sym')
@@ -352,6 +341,54 @@ def entry_icon_exists(fs, st):
     if c[0] == 'ptr':
         return True
     return None
+
+
+# The interface record as the rules know it: (role name, C type) in declaration order.  A field that was merely renamed is
+# found again by its type and its position among the fields of that type (renaming is not a change of behaviour); added or
+# removed fields of that type make the role ambiguous -> analysis broken.
+IFACE_ROLES = [('iface_ctx', 'void *'), ('next', 'struct lltd_iface_state *'), ('see_list', 'probe_t *'), ('see_list_count', 'uint32_t'),
+               ('mapper_real', 'ethernet_address_t'), ('mapper_apparent', 'ethernet_address_t'), ('mapper_known', 'uint8_t'),
+               ('mapper_seq', 'uint16_t'), ('mapper_gen_topology', 'uint16_t'), ('mapper_gen_quick', 'uint16_t'),
+               ('small_icon', 'void *'), ('small_icon_size', 'size_t')]
+_TYPE_ALIASES = {'_Bool': 'uint8_t', 'bool': 'uint8_t', 'unsigned char': 'uint8_t', 'unsigned short': 'uint16_t', 'unsigned int': 'uint32_t', 'unsigned long': 'size_t'}
+
+
+def _norm_type(qt):
+    qt = ' '.join(qt.replace('const ', '').split())
+    return _TYPE_ALIASES.get(qt, qt)
+
+
+def record_field(srec, name):
+    """(name, offset, type, id) of the interface record's field playing role `name`."""
+    f = srec.field(name)
+    if f is not None:
+        return f
+    roles = dict(IFACE_ROLES)
+    if name not in roles:
+        raise AnalysisBroken('field lltd_iface_state.%s vanished' % name)
+    ty = _norm_type(roles[name])
+    missing = [n for n, t in IFACE_ROLES if _norm_type(t) == ty and srec.field(n) is None]
+    known = set(n for n, _t in IFACE_ROLES)
+    unnamed = [x for x in srec.fields if _norm_type(x[2]) == ty and x[0] not in known]
+    if len(missing) != len(unnamed):
+        raise AnalysisBroken('field lltd_iface_state.%s vanished and cannot be re-identified by type (%d roles, %d candidate fields of type %s)'
+                             % (name, len(missing), len(unnamed), ty))
+    return unnamed[missing.index(name)]
+
+
+def iface_list_name(prog):
+    """Name of the list head of interface records: the file-scope static of type `lltd_iface_state *` in the frame
+    handler's unit (`g_iface_states` today), found by type."""
+    ix = prog.unit(BLOCK_UNIT)
+    c = []
+    for n in facts.walk(ix.unit.ast):
+        if n.get('kind') == 'VarDecl' and n.get('_fn') is None and n.get('storageClass') == 'static':
+            qt = ' '.join(n['type']['qualType'].replace('struct ', '').split())
+            if qt == 'lltd_iface_state *' and n.get('name') not in c:
+                c.append(n['name'])
+    if len(c) != 1:
+        raise AnalysisBroken('cannot identify the list head of interface records (file-scope static lltd_iface_state *): candidates %s' % c)
+    return c[0]
 
 
 _LOOKUP_CACHE = {}
